@@ -232,7 +232,7 @@ var rePanic = regexp.MustCompile(`(?m)^(panic:|fatal error:|goroutine \d+ \[)`)
 
 func checkC12(c *Ctx) error {
 	nMut := c.Pick(9000, 120000)
-	c.Rule = fmt.Sprintf("(1) %d seeded byte/token-level mutants of a corpus of valid and invalid configurations (flip, delete, duplicate, splice, snippet insertion incl. anchors/aliases/tags/merge keys/timestamps/huge numbers, indentation changes, long tokens) x random flag sets x 1-3 files and patterns, through the real binary under a watchdog; (2) schema-aware type confusions: every value position of a template configuration replaced by 20 node kinds, plus non-scalar keys, merge keys, aliases across sections, 10 000-deep nesting, 1 MiB names; (3) thorough tier: native coverage-guided fuzzing of the build command in-process (go test -fuzz, iteration-bounded). Oracle: exit status in {0,1}, no panic/fatal error/goroutine dump on stderr, CLI contract (report consistent; failing run leaves -o untouched; success leaves a parsable file), run time under 1000x the normal time (a timeout only counts after it reproduces twice). distinct = distinct input bytes; non-trivial = input differs from every corpus entry", nMut)
+	c.Rule = fmt.Sprintf("(1) %d seeded byte/token-level mutants of a corpus of valid and invalid configurations (flip, delete, duplicate, splice, snippet insertion incl. anchors/aliases/tags/merge keys/timestamps/huge numbers, indentation changes, long tokens) x random flag sets x 1-3 files and patterns x (a quarter of the runs) an extra directory entry the patterns also match (dangling link, link loop, directory, link to a directory or device, empty file, glob characters or 240 bytes in the name, the same file through a link), through the real binary under a watchdog; (2) schema-aware type confusions: every value position of a template configuration replaced by 20 node kinds, plus non-scalar keys, merge keys, aliases across sections, 10 000-deep nesting, 1 MiB names; (3) thorough tier: native coverage-guided fuzzing of the build command in-process (go test -fuzz, iteration-bounded). Oracle: exit status in {0,1}, no panic/fatal error/goroutine dump on stderr, CLI contract (report consistent; failing run leaves -o untouched; success leaves a parsable file), run time under 1000x the normal time (a timeout only counts after it reproduces twice). distinct = distinct input bytes; non-trivial = input differs from every corpus entry", nMut)
 	c.Assumptions = []string{"inputs whose reference structure would have very many elementary cycles are excluded by construction (mutants of sparse configurations; the fuzz target skips inputs with more than 40 reference markers)", "coverage-guided mutation is not seedable: crashers are saved as replay files"}
 	w := c.W
 	corpus := c12Corpus(c.Seed, c.Pick(120, 600))
@@ -242,6 +242,7 @@ func checkC12(c *Ctx) error {
 		pats  []string
 		flags []string
 		kind  string
+		shape int // file-system entries next to the inputs that the patterns also match (0 = none)
 	}
 	jobs := make([]job, 0, nMut+2000)
 	r := rand.New(rand.NewSource(c.Seed))
@@ -265,12 +266,16 @@ func checkC12(c *Ctx) error {
 		case 3:
 			pats = []string{"nothing*", "*.yaml"}
 		}
-		jobs = append(jobs, job{fs, pats, flagSets[r.Intn(len(flagSets))], "mutant"})
+		shape := 0
+		if r.Intn(4) == 0 {
+			shape = 1 + r.Intn(9)
+		}
+		jobs = append(jobs, job{fs, pats, flagSets[r.Intn(len(flagSets))], "mutant", shape})
 	}
 	tc := typeConfusions()
 	c.Set("type_confusions", len(tc))
 	for i, y := range tc {
-		jobs = append(jobs, job{[]string{y}, []string{"f0.yaml"}, flagSets[i%len(flagSets)], "type-confusion"})
+		jobs = append(jobs, job{[]string{y}, []string{"f0.yaml"}, flagSets[i%len(flagSets)], "type-confusion", 0})
 	}
 	inCorpus := map[string]bool{}
 	for _, s := range corpus {
@@ -281,6 +286,29 @@ func checkC12(c *Ctx) error {
 	exec1 := func(j job, dir string) cli.Run {
 		for k, f := range j.files {
 			_ = work.WriteFile(filepath.Join(dir, fmt.Sprintf("f%d.yaml", k)), []byte(f))
+		}
+		// what a glob may also match in a real directory: editor lock files (dangling links), link loops, directories,
+		// links to directories and devices, empty files, odd names
+		switch j.shape {
+		case 1:
+			_ = os.Symlink("user@host.1234:1700000000", filepath.Join(dir, ".#f0.yaml"))
+		case 2:
+			_ = os.Symlink("f9.yaml", filepath.Join(dir, "f9.yaml"))
+		case 3:
+			_ = os.MkdirAll(filepath.Join(dir, "f8.yaml", "inner.yaml"), 0o755)
+		case 4:
+			_ = os.MkdirAll(filepath.Join(dir, "realdir"), 0o755)
+			_ = os.Symlink("realdir", filepath.Join(dir, "f7.yaml"))
+		case 5:
+			_ = os.Symlink("/dev/null", filepath.Join(dir, "f6.yaml"))
+		case 6:
+			_ = work.WriteFile(filepath.Join(dir, "f5.yaml"), nil)
+		case 7:
+			_ = work.WriteFile(filepath.Join(dir, "f [x]*?.yaml"), []byte("parameters: {odd: 1}\n"))
+		case 8:
+			_ = work.WriteFile(filepath.Join(dir, "f"+strings.Repeat("n", 240)+".yaml"), []byte("parameters: {long: 1}\n"))
+		case 9:
+			_ = os.Symlink("../"+filepath.Base(dir)+"/f0.yaml", filepath.Join(dir, "f4.yaml")) // the same file twice, through a link
 		}
 		out := filepath.Join(dir, "out.go")
 		args := []string{"build"}
@@ -301,9 +329,12 @@ func checkC12(c *Ctx) error {
 		dir := w.TempDir("c12")
 		run := exec1(j, dir)
 		durs[i] = run.Res.Dur
-		key := strings.Join(j.files, "\x00") + strings.Join(j.pats, ",") + strings.Join(j.flags, ",")
+		key := strings.Join(j.files, "\x00") + strings.Join(j.pats, ",") + strings.Join(j.flags, ",") + fmt.Sprint(j.shape)
+		if j.shape != 0 {
+			c.Add("runs_with_extra_directory_entries", 1)
+		}
 		c.Eval(key, !(len(j.files) == 1 && inCorpus[j.files[0]]))
-		files := map[string]string{"args.txt": strings.Join(run.Args, " "), "stderr.txt": run.Res.Stderr, "stdout.txt": firstLines(run.Res.Stdout, 80)}
+		files := map[string]string{"args.txt": strings.Join(run.Args, " "), "extra-directory-entry.txt": fmt.Sprint("shape ", j.shape, " (see engine/mon/c12.go exec1)"), "stderr.txt": run.Res.Stderr, "stdout.txt": firstLines(run.Res.Stdout, 80)}
 		for k, f := range j.files {
 			files[fmt.Sprintf("input/f%d.yaml", k)] = f
 		}
